@@ -71,8 +71,14 @@ func (x *Exec) splitPath(p Str) (comps []Str, abs bool) {
 	st := x.c.st
 	slash := st.Const(8, '/')
 	start := 0
+	isSlash := func(t *Term) bool {
+		if t.op == OpConst {
+			return t.k == '/'
+		}
+		return x.c.Branch(st.Eq(t, slash))
+	}
 	for i := 0; i <= len(p.b); i++ {
-		if i == len(p.b) || x.c.Branch(st.Eq(p.b[i], slash)) {
+		if i == len(p.b) || isSlash(p.b[i]) {
 			if i == 0 && len(p.b) > 0 {
 				abs = true
 			}
@@ -86,16 +92,43 @@ func (x *Exec) splitPath(p Str) (comps []Str, abs bool) {
 }
 
 func (x *Exec) isDot(c Str) bool {
-	return len(c.b) == 1 && x.c.Branch(x.c.st.Eq(c.b[0], x.c.st.Const(8, '.')))
+	if len(c.b) != 1 {
+		return false
+	}
+	if c.b[0].op == OpConst {
+		return c.b[0].k == '.'
+	}
+	return x.c.Branch(x.c.st.Eq(c.b[0], x.c.st.Const(8, '.')))
 }
 func (x *Exec) isDotDot(c Str) bool {
 	st := x.c.st
+	if len(c.b) == 2 && c.b[0].op == OpConst && c.b[1].op == OpConst {
+		return c.b[0].k == '.' && c.b[1].k == '.'
+	}
 	return len(c.b) == 2 && x.c.Branch(st.And(st.Eq(c.b[0], st.Const(8, '.')), st.Eq(c.b[1], st.Const(8, '.'))))
 }
 
 func (n *FNode) find(x *Exec, name Str) *FEnt {
 	for _, e := range n.ents {
 		if len(e.name.b) != len(name.b) {
+			continue
+		}
+		// fast path: both names concrete
+		conc, same := true, true
+		for i := range name.b {
+			a, b := e.name.b[i], name.b[i]
+			if a.op != OpConst || b.op != OpConst {
+				conc = false
+				break
+			}
+			if a.k != b.k {
+				same = false
+			}
+		}
+		if conc {
+			if same {
+				return e
+			}
 			continue
 		}
 		if x.c.Branch(x.eqVal(e.name, name)) {
@@ -112,6 +145,9 @@ func (x *Exec) resolve(p Str) (node *FNode, parent *FNode, name Str, errk string
 	}
 	for _, b := range p.b {
 		// a NUL byte in a path is rejected by the os package before any system call (EINVAL)
+		if b.op == OpConst && b.k != 0 {
+			continue
+		}
 		if x.c.Branch(x.c.st.Eq(b, x.c.st.Const(8, 0))) {
 			return nil, nil, Str{}, "EINVAL"
 		}
